@@ -114,17 +114,17 @@ pub(crate) mod kani_verif {
     }
     // @h name=c02_hca_w8 props=C02,C06!,C01! tier=quick kind=bounded cfg=default timeout=900 funcs=HashChainArray::new;HashChainArray::push;HashChainArray::as_slice note="element contents are a concrete pattern (data-independent copying code)" contract="container contract assumed by Verus unit v4_lmots_verify: capacity p(32,w), push appends, as_slice returns the pushed sequence in order; W8 (34 elements)"
     h!(c02_hca_w8, check_hca(8), 40);
-    // @h name=c02_hca_w4 props=C02,C06,C01 tier=thorough kind=bounded cfg=default timeout=900 funcs=HashChainArray::new;HashChainArray::push;HashChainArray::as_slice contract="same, W4 (67 elements)"
+    // @h name=c02_hca_w4 props=C02,C06,C01 tier=extended kind=bounded cfg=default timeout=900 funcs=HashChainArray::new;HashChainArray::push;HashChainArray::as_slice contract="same, W4 (67 elements)"
     h!(c02_hca_w4, check_hca(4), 72);
-    // @h name=c02_hca_w2 props=C02,C06,C01 tier=thorough kind=bounded cfg=default timeout=1200 funcs=HashChainArray::new;HashChainArray::push;HashChainArray::as_slice contract="same, W2 (133 elements)"
+    // @h name=c02_hca_w2 props=C02,C06,C01 tier=extended kind=bounded cfg=default timeout=1200 funcs=HashChainArray::new;HashChainArray::push;HashChainArray::as_slice contract="same, W2 (133 elements)"
     h!(c02_hca_w2, check_hca(2), 140);
-    // @h name=c02_hca_w1 props=C02,C06,C01 tier=thorough kind=bounded cfg=default timeout=1800 funcs=HashChainArray::new;HashChainArray::push;HashChainArray::as_slice contract="same, W1 (265 elements)"
+    // @h name=c02_hca_w1 props=C02,C06,C01 tier=extended kind=bounded cfg=default timeout=1800 funcs=HashChainArray::new;HashChainArray::push;HashChainArray::as_slice contract="same, W1 (265 elements)"
     h!(c02_hca_w1, check_hca(1), 270);
 
     // the same container contract in a build whose signing side is restricted to W8 (capacity of the signer's buffers: 34
     // chains): the VERIFIER must still hold every chain of a W4 / W1 signature (C06: no panic on well-formed input; C14)
-    // @h name=c06_hca_w4_cfgw8 props=C06,C14!,C02 tier=quick kind=bounded cfg=w8 timeout=900 funcs=HashChainArray::new;HashChainArray::push;HashChainArray::as_slice note="concrete content pattern" contract="W8-only build: the verifier's chain buffer still holds the 67 chains of a W4 signature"
+    // @h name=c06_hca_w4_cfgw8 props=C06,C14,C02 tier=extended kind=bounded cfg=w8 timeout=900 funcs=HashChainArray::new;HashChainArray::push;HashChainArray::as_slice note="concrete content pattern" contract="W8-only build: the verifier's chain buffer still holds the 67 chains of a W4 signature"
     h!(c06_hca_w4_cfgw8, check_hca(4), 72);
-    // @h name=c06_hca_w1_cfgw8 props=C06,C14,C02 tier=thorough kind=bounded cfg=w8 timeout=1800 funcs=HashChainArray::new;HashChainArray::push;HashChainArray::as_slice note="concrete content pattern" contract="same, the 265 chains of a W1 signature"
+    // @h name=c06_hca_w1_cfgw8 props=C06,C14,C02 tier=extended kind=bounded cfg=w8 timeout=1800 funcs=HashChainArray::new;HashChainArray::push;HashChainArray::as_slice note="concrete content pattern" contract="same, the 265 chains of a W1 signature"
     h!(c06_hca_w1_cfgw8, check_hca(1), 270);
 }
